@@ -62,6 +62,7 @@ func (srv *Server) ListenAndServe() error {
 		return errors.New("no listeners found")
 	}
 
+	srvCtx := ctx
 	eg, ctx := errgroup.WithContext(ctx)
 
 	for _, l := range srv.listeners {
@@ -83,7 +84,9 @@ func (srv *Server) ListenAndServe() error {
 
 	err := eg.Wait()
 
-	if errors.Is(err, ctx.Err()) {
+	// After Close, whichever error surfaced first (the cancelled context or a listener reporting
+	// that it was stopped) is a consequence of the shutdown.
+	if srvCtx.Err() != nil || errors.Is(err, ctx.Err()) {
 		return ErrServerClosed
 	}
 	return err
@@ -185,8 +188,19 @@ func (srv *Server) Close() error {
 		}
 	}
 
-	close(srv.transportChan)
-	return multierr.Combine(errs...)
+	// The transport queue is not closed: the accept and consume loops may still be selecting on it
+	// (a receive from the closed queue yields a nil transport, a send on it panics); both loops stop
+	// on the cancelled context. Connections accepted but not yet served are released here.
+	for {
+		select {
+		case t := <-srv.transportChan:
+			if t != nil {
+				_ = t.Close()
+			}
+		default:
+			return multierr.Combine(errs...)
+		}
+	}
 }
 
 // ServerConfig define the configurations for a Server instance.
